@@ -156,6 +156,17 @@ func (E *Engine) keyBuilderCall(m *Machine, fn *ssa.Function, args []Val) (Val, 
 		k := term(args[0])
 		m.safeSite("keyparse", Eq(App(SInt, "ktag", k), IntLit(6)), "parser applied to a key of another family")
 		return p("kRedel_4", k, SInt), true
+	case "types.ParseRedelegationPaginationKeyTime":
+		// applied to a redelegation key with a leading prefix removed (prefix-store iteration): the completion time is the trailing
+		// component, untouched by stripping a leading prefix
+		E.declKeys()
+		k := term(args[0])
+		E.D.Fun("kstrip", []Sort{SBytes, SBytes}, SBytes)
+		E.D.Fun("redelPagTime", []Sort{SBytes}, SInt)
+		E.D.Fun("strippedRedel", []Sort{SBytes}, SBool)
+		E.D.Axiom("(forall ((p Bytes) (k Bytes)) (! (=> (and (= (ktag k) 6) (pfx k p)) (and (strippedRedel (kstrip p k)) (= (redelPagTime (kstrip p k)) (kRedel_4 k)))) :pattern ((kstrip p k))))")
+		m.safeSite("keyparse", App(SBool, "strippedRedel", k), "pagination-key parser applied to something that is not a redelegation key with a leading prefix removed")
+		return p("redelPagTime", k, SInt), true
 	case "types.ParseAllianceValidatorKey":
 		E.declKeys()
 		k := term(args[0])
